@@ -581,3 +581,226 @@ class SecondOrderMeasuresWiring(Contract):
 
 
 REGISTRY.append(SecondOrderMeasuresWiring())
+
+
+# ---- C14 scale mean / standard deviation / standard error --------------------------------
+class _ScaleContract(Contract):
+    props = ("C14", "C04")
+    cls = None
+    what = None
+
+    def __init__(self):
+        self.name = "%s:%s.blocks" % (MOD, self.cls)
+
+    def configs(self):
+        return [dict(o=o) for o in ("rows", "columns")]
+
+    def size_space(self, cfg):
+        return SliceEnv.size_space(True, True)
+
+    def som(self, B, env, values, cfg):
+        bname, bspec = ("row_weighted_bases", spec.row_base_blocks) if cfg["o"] == "rows" else ("column_weighted_bases", spec.column_base_blocks)
+        return dict(
+            weighted_counts=blocks_stub(B, "weighted_counts", spec.count_blocks(B, env, env.w)),
+            **{bname: blocks_stub(B, bname, bspec(B, env, env.w))},
+        )
+
+    def run(self, B, cfg):
+        MO = B.enum("enums:MARGINAL_ORIENTATION")
+        env = SliceEnv(B, True, True)
+        n_opp = env.C if cfg["o"] == "rows" else env.R
+        values = B.tensor("numeric_values", (n_opp,), maybe_nan=True)
+        vseq = B.seq(n_opp, lambda k: B.rd(values, k), "numeric_values")
+        if hasattr(vseq, "elem_kind"):
+            pass
+        opp = 1 if cfg["o"] == "rows" else 0
+        dims = list(env.dims)
+        dims[opp] = B.stub(
+            "opposing_dimension", subtotals=(env.cols if opp == 1 else env.rows).seq,
+            dimension_type=env.DT.CAT, numeric_values=vseq,
+        )
+        som = B.stub("second_order_measures", **self.som(B, env, values, cfg))
+        obj = B.new("%s:%s" % (MOD, self.cls), tuple(dims), som, env.cube_measures, MO.ROWS if cfg["o"] == "rows" else MO.COLUMNS)
+        try:
+            blocks = obj.blocks
+        except ValueError:
+            # undefined exactly when no category carries a numeric value
+            all_nan = B.band(*[True]) if False else None
+            B.check("undefined-only-without-numeric-values", self._all_nan(B, values, n_opp))
+            return
+        B.check("defined-only-with-numeric-values", B.bnot(self._all_nan(B, values, n_opp)))
+        exp = self.expected(B, env, values, cfg)
+        B.check("two-blocks", len(blocks) == 2)
+        B.eq_tensor("blocks[0]", blocks[0], exp[0])
+        B.eq_tensor("blocks[1]", blocks[1], exp[1])
+
+    def _all_nan(self, B, values, n):
+        """no k in range with a numeric value (as a closed formula over one witness)"""
+        import z3
+        from pvc import core
+
+        if B.mode == "C":
+            return all(B.isnan(B.rd(values, k)) for k in range(int(n)))
+        if isinstance(core.raw(n), int):
+            return B.band(*[B.isnan(B.rd(values, k)) for k in range(core.raw(n))])
+        k = z3.Int(B.c.fresh("wit"))
+        body = core.raw(core.lift_bool(B.isnan(B.rd(values, core.SInt(k)))))
+        return core.sbool(z3.ForAll([k], z3.Implies(z3.And(k >= 0, k < core.zi(n)), core.zb(body))))
+
+    def expected(self, B, env, values, cfg):
+        return spec.scale_blocks(B, env, env.w, values, cfg["o"], self.what)
+
+
+class ScaleMeanBlocks(_ScaleContract):
+    cls = "_ScaleMean"
+    what = "mean"
+
+
+REGISTRY.append(ScaleMeanBlocks())
+
+
+class ScaleMeanStddevBlocks(_ScaleContract):
+    cls = "_ScaleMeanStddev"
+    what = "sd"
+
+    def som(self, B, env, values, cfg):
+        ccname = "column_comparable_counts" if cfg["o"] == "rows" else "row_comparable_counts"
+        cnt = spec.count_blocks(B, env, env.w)
+        # comparable counts: differences in the *other* direction are NaN (callee contract)
+        smname = "rows_scale_mean" if cfg["o"] == "rows" else "columns_scale_mean"
+        return {
+            ccname: blocks_stub(B, ccname, self._comparable(B, env, cfg)),
+            smname: blocks_stub(B, smname, spec.scale_blocks(B, env, env.w, values, cfg["o"], "mean")),
+        }
+
+    def _comparable(self, B, env, cfg):
+        from .matrix_subtotals_c import sum_blocks_spec
+
+        if cfg["o"] == "rows":
+            return sum_blocks_spec(B, env.w.counts, env.R, env.C, env.rows, env.cols, False, True)
+        return sum_blocks_spec(B, env.w.counts, env.R, env.C, env.rows, env.cols, True, False)
+
+
+REGISTRY.append(ScaleMeanStddevBlocks())
+
+
+# ---- C11 on categorical-date dimensions: NaN wherever the proportion is undefined -----------
+class _VarianceDates(_VarianceContract):
+    """same contract with categorical-date dimensions: the variance must be NaN wherever the
+    proportion is NaN (multi-term wave differences); the one-minus-one wave-difference cells,
+    whose 'proportion' is a difference of two percentages with different bases, are left
+    unspecified (the indicator reading of the statement does not apply to them: F10)."""
+
+    dates = True
+
+    def __init__(self):
+        self.name = "%s:_ProportionVariances.blocks<%s,dates>" % (MOD, self.direction)
+
+    def configs(self):
+        return [c for c in _BlocksContract.configs(self) if c.get("rd") or c.get("cd")]
+
+    def run(self, B, cfg):
+        env = self.env(B, cfg)
+        p = spec.proportion_blocks(B, env, env.w, self.direction)
+        nt = _BASES[self.direction][1](B, env, env.w)
+        obj = B.new(
+            "%s:_ProportionVariances" % MOD, env.dims, B.stub("second_order_measures"), env.cube_measures, p, nt
+        )
+        exp = spec.variance_blocks(B, env, env.w, self.direction)
+        blocks = obj.blocks
+        rows, cols = env.rows, env.cols
+        rd_, cd_ = cfg.get("rd"), cfg.get("cd")
+
+        def care(a, b):
+            def f(x, y):
+                wave = False
+                if a == 1 and rd_ and self.direction != "table":
+                    wave = B.bor(wave, B.band(rows.is_diff(x), B.bnot(spec.wave_multi(rows, x))))
+                if b == 1 and cd_ and self.direction != "table":
+                    wave = B.bor(wave, B.band(cols.is_diff(y), B.bnot(spec.wave_multi(cols, y))))
+                return B.bnot(wave)
+
+            return f
+
+        for a in (0, 1):
+            for b in (0, 1):
+                B.eq_tensor("blocks[%d][%d]" % (a, b), blocks[a][b], exp[a][b], care=care(a, b))
+
+
+for _d in ("row", "column"):
+    REGISTRY.append(type("C_VarDates_" + _d, (_VarianceDates,), dict(direction=_d))())
+
+
+# ---- C20: smoothed measures -----------------------------------------------------------------
+class SmoothedMeasures(Contract):
+    """smoothed column proportions / column index / means are the smoother applied to the
+    unsmoothed base values (row-subtotal proportions too), inserted cells as unsmoothed; the
+    smoothed scale mean is the scale mean *of the smoothed proportions*."""
+
+    name = MOD + ":_ColumnProportionsSmoothed/_ColumnIndexSmoothed/_MeansSmoothed/_ScaleMeanSmoothed"
+    props = ("C20",)
+
+    def size_space(self, cfg):
+        return SliceEnv.size_space(True, True)
+
+    def run(self, B, cfg):
+        MO = B.enum("enums:MARGINAL_ORIENTATION")
+        env = SliceEnv(B, True, True, False, True)
+        R, C = env.R, env.C
+        calls = []
+
+        class Smoother:
+            """stands for any smoother: smooth(x) is an unknown function S of x, modelled as a
+            fresh tensor of the same shape per distinct argument"""
+
+            def __init__(self):
+                self.memo = []
+
+            def smooth(self, x):
+                for a, r in self.memo:
+                    if a is x:
+                        return r
+                r = B.tensor("S%d" % len(self.memo), x.shape, maybe_nan=True)
+                self.memo.append((x, r))
+                return r
+
+        # -- column proportions
+        sm = Smoother()
+        som = _som_props("column")(B, env)
+        obj = B.new("%s:_ColumnProportionsSmoothed" % MOD, env.dims, som, env.cube_measures)
+        B.cut(obj, "_smoother", sm)
+        blocks = obj.blocks
+        plain = spec.proportion_blocks(B, env, env.w, "column")
+        B.check("proportions: smoother applied twice", len(sm.memo) == 2)
+        args = [a for a, _ in sm.memo]
+        B.eq_tensor("proportions: smooth(base values)", args[0], plain[0][0])
+        B.eq_tensor("proportions: smooth(row subtotals)", args[1], plain[1][0])
+        B.check("proportions: blocks[0][0] is the smoothed array", blocks[0][0] is sm.memo[0][1] and blocks[1][0] is sm.memo[1][1])
+        B.eq_tensor("proportions: inserted columns unsmoothed", blocks[0][1], plain[0][1])
+        B.eq_tensor("proportions: intersections unsmoothed", blocks[1][1], plain[1][1])
+        # -- smoothed scale mean = scale mean of the smoothed column proportions
+        sm2 = Smoother()
+        values = B.tensor("numeric_values", (R,), maybe_nan=True)
+        dims = (B.stub("rows", subtotals=env.rows.seq, dimension_type=env.DT.CAT, numeric_values=B.seq(R, lambda k: B.rd(values, k), "nv")), env.cdim)
+        pblocks = spec.proportion_blocks(B, env, env.w, "column")
+        som2 = B.stub("second_order_measures", column_proportions=blocks_stub(B, "column_proportions", pblocks))
+        sc = B.new("%s:_ScaleMeanSmoothed" % MOD, dims, som2, env.cube_measures, MO.COLUMNS)
+        B.cut(sc, "_smoother", sm2)
+        try:
+            out = sc.blocks
+        except ValueError:
+            return
+        B.check("scale-mean: smoother applied to base and inserted column proportions", len(sm2.memo) == 2 and sm2.memo[0][0] is pblocks[0][0] and sm2.memo[1][0] is pblocks[0][1])
+        for bi, n_vec in ((0, C), (1, env.cols.S)):
+            S = sm2.memo[bi][1]
+
+            def mean(j, S=S):
+                hv = lambda i: B.bnot(B.isnan(B.rd(values, i)))
+                num = B.Sum(R, lambda i: B.ite(B.bor(B.bnot(hv(i)), B.isnan(B.rd(S, i, j))), 0.0, B.rd(values, i) * B.rd(S, i, j)))
+                den = B.Sum(R, lambda i: B.ite(hv(i), B.rd(S, i, j), 0.0))
+                return num / den
+
+            B.eq_tensor("scale-mean: blocks[%d]" % bi, out[bi], B.spec_tensor((n_vec,), mean))
+
+
+REGISTRY.append(SmoothedMeasures())
